@@ -480,6 +480,44 @@ def gen_scenario(rng, spec, nper=None) -> dict:
         for back in range(1, -lo[j] + 2):
             if rng.random() < 0.7:
                 sc["init"].append([j, back, _r(rng, -0.3, 0.3, 3)])     # deviation of V_j at start-back
+    shape_scenario(rng, spec, sc, split=rng.random() < 0.35, cancel=rng.random() < 0.3)
+    return sc
+
+
+def shape_scenario(rng, spec, sc, split=False, cancel=False):
+    """Classes of legitimate shock paths / options that a random draw rarely hits:
+    cancel -- anticipated shocks whose values cancel: in the LAST anticipated period across two (or three) different
+              shocks (column sum zero), or over time within one shock (row sum zero); nothing about a path of shocks may
+              depend on sums of their values;
+    split  -- simulate(..., force_split_frames=True): a new frame starts at every unanticipated shock; made non-trivial by an
+              unanticipated shock after the first period and an anticipated shock dated after it."""
+    nper, ns = sc["nper"], spec["nshocks"]
+    val = lambda: rng.choice([0.25, 0.5, 0.75, 1.0, 1.5]) * rng.choice([1, -1])
+    if cancel and nper >= 2:
+        if ns >= 2 and rng.random() < 0.75:
+            tc = rng.randint(max(1, nper // 2), nper - 1)
+            sc["v"] = [q for q in sc["v"] if q[1] < tc]
+            ss = rng.sample(range(ns), 3 if (ns >= 3 and rng.random() < 0.4) else 2)
+            a = val()
+            if len(ss) == 2:
+                sc["v"] += [[ss[0], tc, a], [ss[1], tc, -a]]
+            else:
+                b = val()
+                sc["v"] += [[ss[0], tc, a], [ss[1], tc, b], [ss[2], tc, -(a + b)]]
+        else:
+            s0 = rng.randrange(ns)
+            t1 = rng.randint(0, nper - 2); t2 = rng.randint(t1 + 1, nper - 1)
+            a = val()
+            sc["v"] = [q for q in sc["v"] if not (q[0] == s0)] + [[s0, t1, a], [s0, t2, -a]]
+    if split:
+        sc["split"] = True
+        if nper >= 3:
+            tu = rng.randint(1, nper - 2)
+            if not any(1 <= q[1] <= tu for q in sc["u"]):
+                sc["u"].append([rng.randrange(ns), tu, val()])
+            tu = min(q[1] for q in sc["u"] if q[1] >= 1)
+            if not any(q[1] > tu for q in sc["v"]):
+                sc["v"].append([rng.randrange(ns), rng.randint(tu + 1, nper - 1), val()])
     return sc
 
 
@@ -509,7 +547,8 @@ def run_scenario(m, spec, sc, deviation=None):
         if base != base:
             continue
         db[nm][p] = base * math.exp(dv) if spec["logs"][j] else base + dv
-    out = m.simulate(db, span, method="first_order", deviation=dev)
+    opts = {"force_split_frames": True} if sc.get("split") else {}
+    out = m.simulate(db, span, method="first_order", deviation=dev, **opts)
     return db, out, span
 
 
@@ -769,7 +808,7 @@ class Bundle:
         vl = lambda cols: "[" + "; ".join(raw(np.array(c, dtype=float)) for c in cols) + "]"
         sn = self.sol_names()
         bl = lambda l: "[" + "; ".join("true" if b else "false" for b in l) + "]"
-        term = (f"B.check_simulation {self.nb} {self.nf} {self.ne} {self.ny} {self.nw} {'true' if dev else 'false'} "
+        term = (f"B.check_simulation {'true' if sc.get('split') else 'false'} {self.nb} {self.nf} {self.ne} {self.ny} {self.nw} {'true' if dev else 'false'} "
                 f"{bl(so.true_initials)} {sn['T']} {sn['P']} {sn['K']} {sn['X']} {sn['J']} {sn['Ru']} "
                 f"{sn['Z']} {sn['H']} {sn['D']} {raw(np.array(init))} {vl(us)} {vl(vs)} {vl(ws)} "
                 f"[{'; '.join(ol(c) for c in exp_xi)}] [{'; '.join(ol(c) for c in exp_y)}]")
@@ -882,6 +921,81 @@ def property_residual(spec, m, sc, out, span, Jc=None, V=None, tol=2e-6) -> list
             r = o - rhs
             if not (abs(r) <= tol * (1 + abs(o))):
                 bad.append(f"measurement equation {k + 1} at period index {ti}: residual {r:.3e}")
+    return bad
+
+
+def _span_cells(spec, dbx, span, variant=None):
+    names = [vname(j) for j in range(spec["n"])] + [oname(k) for k in range(len(spec["meas"]))] + \
+            [ename(s) for s in range(spec["nshocks"])] + ["ant_" + ename(s) for s in range(spec["nshocks"])] + \
+            [wname(k) for k in range(spec["nw"])]
+    out = {}
+    for nm in names:
+        a = np.asarray(dbx[nm].get_data(span), dtype=float)
+        a = a.reshape(len(list(span)), -1)
+        out[nm] = a[:, 0 if variant is None else variant]
+    return out
+
+
+def _cells_differ(a: dict, b: dict, tol) -> list[str]:
+    bad = []
+    for nm in a:
+        x, y = np.nan_to_num(a[nm]), np.nan_to_num(b[nm])
+        if x.shape != y.shape or not np.all(np.abs(x - y) <= tol * (1 + np.abs(y))):
+            bad.append(f"{nm}: {x.tolist()} != {y.tolist()}")
+    return bad
+
+
+def options_invariance(spec, m, sc, db, out, span) -> list[str]:
+    """Output options and frame-by-frame simulation do not change any simulated cell of the span:
+    prepend_input=False, remove_initial/remove_terminal=False, force_split_frames toggled."""
+    bad = []
+    ref = _span_cells(spec, out, span)
+    base = {"force_split_frames": True} if sc.get("split") else {}
+    for extra in ({"prepend_input": False}, {"remove_initial": False, "remove_terminal": False},
+                  {"force_split_frames": not sc.get("split")}):
+        opts = dict(base); opts.update(extra)
+        try:
+            o2 = m.simulate(db, span, method="first_order", deviation=sc["deviation"], **opts)
+            d = _cells_differ(_span_cells(spec, o2, span), ref, 1e-9)
+        except Exception as e:
+            d = [f"raises {type(e).__name__}: {e}"[:200]]
+        bad += [f"{extra}: {q}"[:300] for q in d[:2]]
+    return bad
+
+
+def variants_check(spec, sc, factor=0.95) -> list[str] | None:
+    """Variant k of a two-variant model (different parameter values per variant) simulates like the singleton model with
+    the parameters of variant k.  None when not applicable (no parameters, growth, product terms, variant not STABLE)."""
+    import irispie as ir
+    src, params = render_source(spec)
+    if not params or spec.get("growth") or any(e["nl"] for e in spec["eqs"]):
+        return None
+    pv = [dict(params), {k: round(v * factor, 4) for k, v in params.items()}]
+
+    def solved(assign, nv):
+        mm = ir.Simultaneous.from_string(src, linear=spec["linear"], flat=spec["flat"])
+        if nv > 1:
+            mm.alter_num_variants(nv)
+        mm.assign(**assign)
+        with contextlib.redirect_stdout(io.StringIO()):
+            mm.steady()
+        mm.solve()
+        return mm
+    try:
+        m2 = solved({k: [pv[0][k], pv[1][k]] for k in params}, 2)
+        if any(q.system_stability.name != "STABLE" for q in m2.get_solution()):
+            return None
+        singles = [solved(pv[k], 1) for k in range(2)]
+    except Exception:
+        return None
+    bad = []
+    # deviations with perturbed initial conditions; levels from each variant's own steady state
+    for scv in (dict(sc, deviation=True), dict(sc, deviation=False, init=[])):
+        _db, out2, span = run_scenario(m2, spec, scv)
+        for k in range(2):
+            _d, outk, _s = run_scenario(singles[k], spec, scv)
+            d = _cells_differ(_span_cells(spec, out2, span, variant=k), _span_cells(spec, outk, span), 1e-9)
+            bad += [f"deviation={scv['deviation']} variant {k}: {q}"[:300] for q in d[:2]]
     return bad
 
 
@@ -1041,6 +1155,7 @@ def correspondence(ctx) -> CorrResult:
             dist["scenarios"] += 1
             dist["deviation"] += int(sc["deviation"]); dist["anticipated"] += int(bool(sc["v"]))
             dist["unanticipated"] += int(bool(sc["u"]))
+            dist["split_frames"] = dist.get("split_frames", 0) + int(bool(sc.get("split")))
         bundles.append(b)
         dist["models"] += 1
         ns = b.nb + b.nf
@@ -1230,7 +1345,10 @@ def falsify(ctx, hints):
             sc2 = gen_scenario(rng, spec, nper=nper)
             if not any(q[1] == nper - 1 for q in sc2["v"]):
                 sc2["v"].append([rng.randrange(spec["nshocks"]), nper - 1, _r(rng, 0.3, 1.0, 3)])
-            scen = [sc1, sc2]
+            # third run: cancelling anticipated shocks and / or frame-by-frame simulation (force_split_frames=True)
+            sc3 = gen_scenario(rng, spec, nper=nper)
+            shape_scenario(rng, spec, sc3, split=not sc3.get("split") and rng.random() < 0.6, cancel=rng.random() < 0.6)
+            scen = [sc1, sc2, sc3]
         for k_run, sc in enumerate(scen):
             where = {"spec": spec, "scenario": sc, "scenarios": scen, "failing_run": k_run, "source": src}
             try:
@@ -1253,7 +1371,20 @@ def falsify(ctx, hints):
             if bad:
                 add("level-vs-deviation", "level simulation differs from steady state plus deviation simulation",
                     where, bad[:5], "equal within 1e-7")
-            # non-explosive: a long continuation without shocks returns to the steady state
+            if k_run == len(scen) - 1:
+                bad = options_invariance(spec, m, sc, db, out, span)
+                info["option_invariance_checks"] = info.get("option_invariance_checks", 0) + 1
+                if bad:
+                    add("options:span-cells-differ", "an output option / frame-by-frame simulation changes simulated cells of the "
+                        "span (prepend_input, remove_initial, remove_terminal, force_split_frames)", where, bad[:4],
+                        "identical cells within 1e-9")
+                if info["models"] % 2 == 0:
+                    bad = variants_check(spec, sc)
+                    if bad is not None:
+                        info["variant_checks"] = info.get("variant_checks", 0) + 1
+                        if bad:
+                            add("variants:differs-from-singleton", "variant k of a two-variant model does not simulate like the "
+                                "singleton model with the same parameters", where, bad[:4], "identical cells within 1e-9")
         if len(fails) >= 6:
             break
     # 2. models an independent computation classifies as NOT determinate must not be reported STABLE
